@@ -1020,6 +1020,40 @@ func closureOf(v ssa.Value) *ssa.Function {
 	return nil
 }
 
+// boundMethod: v is a method value x.m (a closure over go/ssa's synthetic $bound wrapper) of a
+// same-package method with a body; returns that method.
+func boundMethod(v ssa.Value) *ssa.Function {
+	mc, ok := strip(v).(*ssa.MakeClosure)
+	if !ok {
+		return nil
+	}
+	w, ok := mc.Fn.(*ssa.Function)
+	if !ok || w.Synthetic == "" || !strings.HasSuffix(w.Name(), "$bound") {
+		return nil
+	}
+	var m *ssa.Function
+	eachInstr(w, func(i ssa.Instruction) {
+		if call, isCall := i.(*ssa.Call); isCall {
+			if f := call.Call.StaticCallee(); f != nil && len(f.Blocks) > 0 {
+				m = f
+			}
+		}
+	})
+	return m
+}
+
+// userParam returns the i-th parameter of fn not counting a method receiver, so that rules written
+// for `func(r *Result) error` closures also read methods `func (d *dec) decode(r *Result) error`.
+func userParam(fn *ssa.Function, i int) *ssa.Parameter {
+	if fn.Signature.Recv() != nil {
+		i++
+	}
+	if i < len(fn.Params) {
+		return fn.Params[i]
+	}
+	return nil
+}
+
 // bindingOf maps a free variable of a closure to the value bound at its (single) MakeClosure site.
 func bindingOf(fv *ssa.FreeVar) ssa.Value {
 	fn := fv.Parent()
@@ -1045,8 +1079,39 @@ func bindingOf(fv *ssa.FreeVar) ssa.Value {
 // rootCell resolves an address through closure bindings to the outermost cell
 // (Alloc, Parameter, Global) it denotes, e.g. the free variable `results` in
 // Attack$1$1 to the Alloc in Attack.
+var recvFieldRep = map[*ssa.Parameter]map[int]*ssa.FieldAddr{}
+
+// recvFieldCell: the state of a method-value "closure" lives in receiver fields; all addresses
+// of one receiver field are identified with one representative instruction, so that they compare
+// equal the way loads of one captured variable do.
+func recvFieldCell(fa *ssa.FieldAddr) ssa.Value {
+	p, ok := fa.X.(*ssa.Parameter)
+	if !ok || p.Parent().Signature.Recv() == nil || p != p.Parent().Params[0] {
+		return fa
+	}
+	m := recvFieldRep[p]
+	if m == nil {
+		m = map[int]*ssa.FieldAddr{}
+		eachInstr(p.Parent(), func(i ssa.Instruction) {
+			if f, isFA := i.(*ssa.FieldAddr); isFA && f.X == ssa.Value(p) {
+				if _, have := m[f.Field]; !have {
+					m[f.Field] = f
+				}
+			}
+		})
+		recvFieldRep[p] = m
+	}
+	if rep := m[fa.Field]; rep != nil {
+		return rep
+	}
+	return fa
+}
+
 func rootCell(v ssa.Value) ssa.Value {
 	for k := 0; k < 8; k++ {
+		if fa, isFA := v.(*ssa.FieldAddr); isFA {
+			return recvFieldCell(fa)
+		}
 		fv, ok := v.(*ssa.FreeVar)
 		if !ok {
 			return v
@@ -1129,6 +1194,12 @@ func returnedClosure(outer *ssa.Function) *ssa.Function {
 					n++
 				}
 				out = cl
+			} else if m := boundMethod(resolveOnceV(r.Results[0])); m != nil && m.Pkg == outer.Pkg {
+				// `return obj.method`: the state lives in a struct instead of captured variables
+				if out != m {
+					n++
+				}
+				out = m
 			}
 		}
 	})
